@@ -149,14 +149,24 @@ def snap_obj(obj, depth=0):
     return {k: snap(v, depth + 1) for k, v in sorted(vars(obj).items())}
 
 
-def snap_diff(a, b, only_common=False):
+def snap_diff(a, b, only_common=False, lazy=False, _path=""):
+    """Names of the attributes that differ. `only_common`: ignore attributes present on one side only
+    (top level). `lazy`: additionally ignore, at every nesting level, fitted attributes that exist on one
+    side only (created lazily by the first call that needs them; an attribute that does not exist yet
+    behaves as its initial value)."""
     keys = set(a) | set(b)
-    if only_common:
+    if only_common or lazy:
         keys = set(a) & set(b)
     out = []
     for k in sorted(keys):
-        if a.get(k, "<missing>") != b.get(k, "<missing>"):
-            out.append(k)
+        va, vb = a.get(k, "<missing>"), b.get(k, "<missing>")
+        if va == vb:
+            continue
+        if lazy and isinstance(va, tuple) and isinstance(vb, tuple) and len(va) == 3 and va[0] == "bm" == vb[0] and va[1] == vb[1]:
+            sub = snap_diff(va[2], vb[2], lazy=True, _path=_path + k + ".")
+            out += sub
+            continue
+        out.append(_path + k)
     return out
 
 
